@@ -50,7 +50,9 @@ pub fn compile_tree(e: &E, threads: Option<u32>, device: &str) -> CompileOutcome
     if crate::util::stable_hash(&(e, threads)) % 8 == 0 {
         poison_compile();
     }
-    let x = to_ast(e);
+    // equal operator subtrees as one shared `Rc` node in half of the trees that have any (a DAG
+    // compares equal to the tree built from separate copies and must be compiled like it)
+    let x = if crate::util::stable_hash(&(e, 0x5eedu16)) % 2 == 0 && has_repeated_subtree(e) { to_ast_shared(e) } else { to_ast(e) };
     let mut opts = RunOptions::default();
     opts.threads = threads;
     for _ in 0..50 {
